@@ -334,6 +334,12 @@ def _genome_size_and_bins(ctx):
     from .c10 import r8_bins_size_strand
     r8_bins_size_strand(ctx)   # genome-wide arrays are sized with GenomeContext.size
 
+def _context_and_merge(ctx):
+    from .c12 import r4_context_immutable
+    from .c08 import r1_merge
+    r4_context_immutable(ctx)              # the set of ignored contigs decides the layout of every genome-wide array
+    r1_merge(ctx)                          # boolean masks are built from merged intervals
+
 RULES = [
     ("C09-R1", r1_symbolic_lengths),
     ("C09-R2", r2_dense_expansion),
@@ -343,4 +349,5 @@ RULES = [
     ("C09-T2", _small_edits),
     ("C09-R5", _genome_size_and_bins),
     ("C09-R6", r6_sorted_sizes_and_fresh_dense),
+    ("C09-R7", _context_and_merge),
 ]
